@@ -408,6 +408,9 @@ func (cc *connectUnaryClientConn) validateResponse(response *http.Response) *Err
 			reader:          response.Body,
 			compressionPool: cc.compressionPools.Get(compression),
 			bufferPool:      cc.bufferPool,
+			// An error is not a message, but the peer shouldn't be able to make
+			// us buffer (and inflate) more for it than for one.
+			readMaxBytes: cc.unmarshaler.readMaxBytes,
 		}
 		var serverErr Error
 		unmarshalErr := unmarshaler.UnmarshalFunc(
